@@ -417,7 +417,33 @@ NATIVE_STANDINS = [
               "up to 2 (parents: 3) listed ids incl. an undeclared one to the parents / children slots (quick: every third)",
      "calls": lambda tier: [{"callee": "add_group_entity", "script": NATIVE, "mode": "groups", "situations": _situations(tier)}],
      "judge": lambda nat: judge(nat)},
+    {"name": "a situation with an axis is the concatenation of the copies it stands for (expand_axes)",
+     "where": "SimulationBuilder.expand_axes",
+     "bound": "situations of 2-3 persons and 1-3 households (one of them possibly declared without members, persons possibly left out), one axis of 2-4 "
+              "steps on a person variable, index 0 or 1; other inputs on persons and households",
+     "calls": lambda tier: [{"callee": "expand_axes", "script": NATIVE, "mode": "axes", "situations": _axes_situations(tier)}],
+     "judge": lambda nat: judge(nat)},
+    {"name": "declared values are read as the variable's type or refused with a situation error (check_set_value through the builder)",
+     "where": "Variable.check_set_value / SimulationBuilder.add_variable_value",
+     "bound": "19 declared values over two enumerations sharing member names, float (incl. an arithmetic text), int, date (incl. impossible dates), "
+              "text, bool - in one process, in a fixed order",
+     "calls": lambda tier: [{"callee": "check_set_value", "script": NATIVE, "mode": "values"}],
+     "judge": lambda nat: judge(nat)},
 ]
+
+
+def _axes_situations(tier):
+    out = []
+    for persons, households in (
+            ({"a": {}, "b": {"vm": {"2018-01": 5}}}, {"h1": {"parents": ["a", "b"], "hm": {"2018-01": 7}}, "h2": {}}),
+            ({"a": {}, "b": {}, "c": {}}, {"h1": {"parents": ["a"], "children": ["b"]}}),
+            ({"a": {}, "b": {}}, {"h2": {}, "h1": {"parents": ["b"], "children": ["a"], "hm": {"2018-01": 3}}}),
+            ({"a": {}, "b": {}, "c": {}}, {"h1": {"parents": ["c"]}, "h2": {"parents": ["a"]}, "h3": {}})):
+        for count in ((2, 3) if tier == "quick" else (2, 3, 4)):
+            for index in (0, 1):
+                out.append({"persons": persons, "households": households,
+                            "axes": [[{"count": count, "name": "vm", "min": 0, "max": 100, "period": "2018-01", "index": index}]]})
+    return out
 
 
 CONTRACTS = [AddVariableValue(), InitVariableValues(), AddDefaultGroupEntity(), FinalizeVariablesInit()]
